@@ -41,6 +41,8 @@ def run(ctx, info):
     for i in res["bad"][:5]:
         ctx.broke(f"correspondence:Loop.run vs real optimize() on {json.dumps(metas[i])[:500]}", "model and implementation differ")
     ctx.coverage["correspondence"] = {"cases": res["n"], "disagreements": len(res["bad"]), "files": res["files"]}
+    from .. import edgesuite
+    edgesuite.run(ctx, "best")
     # every real optimizer, both directions, objectives with plateaus (ties) and smooth ones
     r = ctx.rng
     jobs = []
